@@ -398,10 +398,10 @@ def shrink_case(case, klass, cfg):
 
 
 def plan(tier):
-    n = 1500 if tier == "quick" else 24000
+    n = 1200 if tier == "quick" else 24000
     envs = [{"hashseed": 0, "cache_size": -1}, {"hashseed": 0, "cache_size": 1}, {"hashseed": 0, "cache_size": 2}, {"hashseed": 0, "cache_size": 0}]
     return {"groups": [{"env": e, "indices": [i for i in range(n) if i % len(envs) == g]} for g, e in enumerate(envs)], "n_workers": 16, "chunk": 10 if tier == "quick" else 50,
-            "wall_per_chunk": 900.0, "cfg": {"wall_per_run": 120}}
+            "wall_per_chunk": 900.0, "vacuity": ("executed", 1.0), "cfg": {"wall_per_run": 120}}
 
 
 def describe(results, agg):
